@@ -36,7 +36,8 @@ def enumerated(ctx, maxlen, sample3=None):
         d = G.cycle_doc(kinds, places, rot, via, flags, use_entry, wrappers, extra_child, entries)
         if (h >> 5) & 1 and G.listify(d, hbits(kinds, places, 'flist')):
             label += ' flist'
-        d.nomodel = any(x.tag == 'switch' for x in d.walk())        # switch::convert is not modelled: e2e only
+        # a switch with ONE child is the model's non-g container (TSvg class: converted like a group, not named); several children: e2e only
+        d.nomodel = any(x.tag == 'switch' and len(x.kids) != 1 for x in d.walk())
         out.append((label, d))
     # re-entry family: every single-kind 3-cycle entered by three plain shapes in sequence (the caches are filled by the
     # first entry), all definitions with objectBoundingBox units (converted again for every user) or all with
@@ -183,6 +184,23 @@ def run(ctx):
         if t2 != t:
             docs.append(("filter-list " + label, 'file-with-witness', t2))
             nfl += 1
+    # textPath (final pass; text is not modelled: e2e only): the path a textPath follows carries a reference back to the
+    # definition that holds the text - the path is read, its references are not followed from the text
+    head = '<svg xmlns="http://www.w3.org/2000/svg" xmlns:xlink="http://www.w3.org/1999/xlink" width="100" height="100">'
+    tp = '<text font-size="8"><textPath xlink:href="#p">abc def</textPath></text>'
+    pth = 'd="M 10 20 L 60 20 L 60 60"'
+    for lab, body in (
+            ("mask", '<mask id="m">%s<rect width="50" height="50" fill="white"/></mask><path id="p" %s stroke="black" fill="none" mask="url(#m)"/>' % (tp, pth)),
+            ("clip-path", '<clipPath id="m">%s<rect width="50" height="50"/></clipPath><path id="p" %s stroke="black" fill="none" clip-path="url(#m)"/>' % (tp, pth)),
+            ("pattern", '<pattern id="m" patternUnits="userSpaceOnUse" width="20" height="20">%s<rect width="5" height="5"/></pattern><path id="p" %s fill="url(#m)"/>' % (tp, pth)),
+            ("marker", '<marker id="m" markerWidth="9" markerHeight="9">%s<rect width="3" height="3"/></marker><path id="p" %s stroke="black" fill="none" marker-start="url(#m)"/>' % (tp, pth)),
+            ("filter/feImage", '<filter id="m"><feImage xlink:href="#t"/></filter><text id="t" font-size="8"><textPath xlink:href="#p">abc</textPath></text>'
+                               '<path id="p" %s stroke="black" fill="none" filter="url(#m) blur(1)"/>' % pth),
+            ("self text", '<text id="p" font-size="8"><textPath xlink:href="#p">abc</textPath></text>'),
+            ("switch several children", '<mask id="m"><switch><rect width="50" height="50" fill="white"/><rect width="5" height="5" mask="url(#m)"/></switch></mask>'
+                                        '<switch><rect id="sw_no1" systemLanguage="xx" width="9" height="9" mask="url(#m)"/><g id="sw_sel" mask="url(#m)"><rect width="30" height="30"/></g><rect id="sw_no2" width="7" height="7"/></switch>'),
+            ("href ring behind the path", '<path id="p" %s xlink:href="#q" stroke="black" fill="none"/><path id="q" %s xlink:href="#p" stroke="black" fill="none"/>%s' % (pth, pth, tp))):
+        docs.append(("textpath " + lab, 'file-with-witness', head + body + G.WITNESS + '</svg>'))
     # hand-written use shapes (the class boundary): caught by the guards / not caught
     for label, d in use_family():
         docs.append((label, d, G.to_svg(d)))
@@ -245,6 +263,10 @@ def run(ctx):
             verdicts.append(0)
             continue                    # corpus / witness files have no witness shape: parsing and rendering is the check
         bad = witness_ok(r, extra=not text.startswith('@') and not isinstance(d, str) and not label.startswith('use-family'))
+        if not bad and label == 'textpath switch several children':
+            ids = set(n.get('id') for n in r.get('nodes', []))
+            if 'sw_sel' not in ids or ids & {'sw_no1', 'sw_no2'}:
+                bad = "switch: exactly the first child whose conditions pass is converted; tree has %s" % sorted(ids)
         if not bad and label == 'use-family flist keep':
             ids = set(n.get('id') for n in r.get('nodes', []))
             if not {'k1', 'k2', 'k3'} <= ids or 'k4' in ids:
@@ -333,7 +355,12 @@ def run(ctx):
                 ctx.violation("converter: model and implementation disagree on which elements survive (%s)" % docs[i][0],
                               dict(op='c03-e2e', label=docs[i][0], doc=docs[i][2], impl=json.loads(outs[i])))
             # the model's verdict: every generated document parses to a tree that contains the witness
+            shown = {1: 0, 2: 0, 3: 0}
             for i, mv in mverd.items():
+                if mv in shown:
+                    shown[mv] += 1
+                    if shown[mv] > 3:
+                        continue
                 if mv == 3:
                     ctx.violation("model ran out of fuel on %s" % docs[i][0], dict(doc=docs[i][2], label=docs[i][0]))
                 if mv == 2:
